@@ -286,6 +286,26 @@ type c19Route struct {
 	lit                                                                string // body of a func-literal handler
 }
 
+// leanChars renders a string as a Lean `List Char` literal.
+func leanChars(s string) string {
+	var cs []string
+	for _, r := range s {
+		switch r {
+		case '\'':
+			cs = append(cs, `'\''`)
+		case '\\':
+			cs = append(cs, `'\\'`)
+		default:
+			if r < 0x20 || r == 0x7f {
+				cs = append(cs, fmt.Sprintf("(Char.ofNat %d)", r))
+			} else {
+				cs = append(cs, "'"+string(r)+"'")
+			}
+		}
+	}
+	return "[" + strings.Join(cs, ", ") + "]"
+}
+
 func c19Unquote(g *Gen, e ast.Expr) string {
 	if b, ok := e.(*ast.BasicLit); ok && b.Kind == token.STRING {
 		if s, err := strconv.Unquote(b.Value); err == nil {
@@ -521,6 +541,9 @@ func genC19(g *Gen) error {
 	g.P("  handler : String   -- Handler method name, \"<funclit>\" or constructor call")
 	g.P("  sig : String       -- \"user\" = has the meta.User parameter, \"plain\" = 2 arguments, \"other\"")
 	g.P("  authz : List String -- authorizers the handler reaches with its user argument")
+	g.P("  group : String     -- the function holding the literal (which NewHandler call registers it)")
+	g.P("  external : Bool    -- registered by a package other than httpd")
+	g.P("  patternC : List Char -- `pattern` as characters (String.toList is slow in the kernel)")
 	g.P("deriving DecidableEq, Repr\n")
 	g.P("def routes : List RouteFact := [")
 	for i, r := range routes {
@@ -532,8 +555,14 @@ func genC19(g *Gen) error {
 		if i == len(routes)-1 {
 			sep = ""
 		}
-		g.P("  ⟨%s, %s, %s, %s, %s, %s, %s, %s, %s, [%s]⟩%s", leanStr(r.src), leanStr(r.cond), leanStr(r.name), leanStr(r.method),
-			leanStr(r.pattern), leanStr(r.compress), leanStr(r.logging), leanStr(r.handler), leanStr(r.sig), strings.Join(az, ", "), sep)
+		group := r.src[strings.LastIndexByte(r.src, ':')+1:]
+		ext := "false"
+		if !strings.HasPrefix(r.src, c19Httpd) {
+			ext = "true"
+		}
+		g.P("  ⟨%s, %s, %s, %s, %s, %s, %s, %s, %s, [%s], %s, %s, %s⟩%s", leanStr(r.src), leanStr(r.cond), leanStr(r.name), leanStr(r.method),
+			leanStr(r.pattern), leanStr(r.compress), leanStr(r.logging), leanStr(r.handler), leanStr(r.sig), strings.Join(az, ", "),
+			leanStr(group), ext, leanChars(r.pattern), sep)
 	}
 	g.P("]\n")
 	var lits [][2]string
@@ -689,6 +718,11 @@ func genC19(g *Gen) error {
 		}
 	}
 	g.StrList("preMuxPrefixes", prefixes)
+	var pcs []string
+	for _, p := range prefixes {
+		pcs = append(pcs, leanChars(p))
+	}
+	g.P("def preMuxPrefixesC : List (List Char) := [%s]", strings.Join(pcs, ", "))
 
 	// ParseCredentials: which Method values it can produce; authenticate: the switch labels
 	pc := p.funcs["ParseCredentials"]
